@@ -868,7 +868,7 @@ func c30Each(formats []string, lists ...[]string) []string {
 
 var (
 	c30Atoms     = []string{"a", "t.a", "1", "2.5", "'x'", "true", "null"}
-	c30AtomsMore = []string{"-1", "1e3", ".5", "0x1F", "x'0A'", "b'01'", "`my col`", "db.t.a", "\"q\"", "?", "false", "''", "'it''s'", `'a\nb'`, `'a\\b'`, "end", "t.`select`", "a/b", "count"}
+	c30AtomsMore = []string{"-1", "1e3", ".5", "0x1F", "x'0A'", "b'01'", "`my col`", "db.t.a", "\"q\"", "?", "false", "''", "'it''s'", `'a\nb'`, `'a\\b'`, "'a\tb'", `'a"b'`, "'a\rb'", `'a\tb'`, `'a\0b'`, `'a\Zb'`, `'a\bb'`, `'%_'`, `'\%'`, "'é'", "end", "t.`select`", "a/b", "count"}
 	c30Atoms3    = []string{"a", "1", "'x'"}
 	c30Atoms2    = []string{"a", "1"}
 
